@@ -166,6 +166,8 @@ func loadProg(repo, goos string) (*Prog, error) {
 	if p.NFiles[modPath+"/in_toto"] < 12 {
 		return nil, fmt.Errorf("expected >= 12 non-test files in in_toto, loaded %d", p.NFiles[modPath+"/in_toto"])
 	}
+	curProg = p
+	transparentMemo = map[*ssa.Function][]ssa.Value{}
 	return p, nil
 }
 
